@@ -211,7 +211,10 @@ def setupFromFile(foldername, constantFile: str = None, **kwargs):
             # the latest time, not the lexicographically largest name
             filename = max(list_of_files, key=lambda f: float(
                 os.path.splitext(os.path.basename(f))[0].split('_')[-1]))
-            t = int(filename.split('_')[-1].split('.')[0])
+            # the time may have a fractional part (float time step)
+            t = float(os.path.splitext(os.path.basename(filename))[0].split('_')[-1])
+            if (t == int(t)):
+                t = int(t)
         else:
             filename = None
             t = 0
